@@ -116,6 +116,19 @@ type vRawServer struct {
 	srv   *http.Server
 	mu    sync.Mutex
 	all   []*websocket.Conn
+	hold  chan struct{} // when set: the upgrade of a request waits until it is closed
+	Held  chan struct{} // receives one value per request which has reached the held upgrade
+}
+
+// HoldUpgrades makes every later upgrade wait (TLS is completed, the websocket handshake is not answered) until the
+// returned function is called
+func (rs *vRawServer) HoldUpgrades() func() {
+	ch := make(chan struct{})
+	rs.mu.Lock()
+	rs.hold = ch
+	rs.mu.Unlock()
+	var once sync.Once
+	return func() { once.Do(func() { close(ch) }) }
 }
 
 func vStartRawServer(key vKeyPair, clients ...ed25519.PublicKey) *vRawServer {
@@ -129,10 +142,20 @@ func vStartRawServer(key vKeyPair, clients ...ed25519.PublicKey) *vRawServer {
 	if err != nil {
 		panic(err)
 	}
-	rs := &vRawServer{Addr: lis.Addr().String(), Conns: make(chan *websocket.Conn, 16)}
+	rs := &vRawServer{Addr: lis.Addr().String(), Conns: make(chan *websocket.Conn, 16), Held: make(chan struct{}, 16)}
 	up := websocket.Upgrader{}
 	mux := http.NewServeMux()
 	mux.HandleFunc("/", func(w http.ResponseWriter, r *http.Request) {
+		rs.mu.Lock()
+		hold := rs.hold
+		rs.mu.Unlock()
+		if hold != nil {
+			select {
+			case rs.Held <- struct{}{}:
+			default:
+			}
+			<-hold
+		}
 		c, err := up.Upgrade(w, r, nil)
 		if err != nil {
 			return
